@@ -5,6 +5,7 @@ package main
 
 import (
 	"bytes"
+	"context"
 	"fmt"
 	"io"
 	"log/slog"
@@ -12,6 +13,7 @@ import (
 	"strconv"
 	"strings"
 	"sync"
+	"time"
 
 	"github.com/tsuna/gohbase"
 	"github.com/tsuna/gohbase/hrpc"
@@ -542,6 +544,18 @@ func runC08(tier string, seed uint64, out *Out) {
 		}
 		out.Line("%s", c08Concurrent(NewRNG(seed, fmt.Sprintf("c08c-%d", i))))
 	}
+	// the cache of a client in use (scans walking the table both ways, gets)
+	ne := 40
+	if tier != "quick" {
+		ne = 600
+	}
+	for i := 0; i < ne; i++ {
+		if !out.Want() {
+			out.n++
+			continue
+		}
+		out.Line("%s", c08EndToEnd(NewRNG(seed, fmt.Sprintf("c08e-%d", i))))
+	}
 }
 
 // c08Concurrent: in every round two or three goroutines put pairwise intersecting regions of one
@@ -595,4 +609,111 @@ func c08Concurrent(rng *RNG) string {
 // sortDescs orders descriptors like the cache does (region.Compare on names).
 func sortDescs(ds []desc) {
 	sort.SliceStable(ds, func(i, j int) bool { return region.Compare(ds[i].name, ds[j].name) < 0 })
+}
+
+// c08EndToEnd: the invariant on the cache of a real client that is being used: a table of several
+// regions (seeded split keys, also ones ending in 0x00 / 0x01 / 0xff) is read with Gets, forward
+// and reversed scans that walk all regions, regions split in between; afterwards the cached regions
+// are compared with the regions the cluster ever defined (name, start, stop) and with each other.
+func c08EndToEnd(rng *RNG) string {
+	setSleepOverride(fastBackoff)
+	defer setSleepOverride(nil)
+	c := newSimCluster()
+	c.scanWalk = true
+	n := 2 + rng.Intn(4)
+	var splits [][]byte
+	for len(splits) < n-1 {
+		k := make([]byte, 1+rng.Intn(3))
+		for i := range k {
+			k[i] = byte('a' + rng.Intn(20))
+		}
+		switch rng.Intn(5) {
+		case 0:
+			k[len(k)-1] = 0
+		case 1:
+			k[len(k)-1] = 1
+		case 2:
+			k[len(k)-1] = 0xff
+		}
+		dup := false
+		for _, x := range splits {
+			if bytes.Equal(x, k) {
+				dup = true
+			}
+		}
+		if !dup {
+			splits = append(splits, k)
+		}
+	}
+	sort.Slice(splits, func(i, j int) bool { return bytes.Compare(splits[i], splits[j]) < 0 })
+	defined := map[string]string{}
+	def := func(r *simRegion) { defined[hx(r.name)] = hx(r.start) + ":" + hx(r.stop) }
+	var prev []byte
+	for i := 0; i < n; i++ {
+		var stop []byte
+		if i < n-1 {
+			stop = splits[i]
+		}
+		def(c.addRegion(nil, []byte("t"), prev, stop, fmt.Sprintf("rs%d:1", i%2)))
+		prev = stop
+	}
+	sc := newSimClient(c)
+	defer sc.cl.Close()
+	ops := ""
+	scanAll := func(rev bool) string {
+		ctx, cancel := context.WithTimeout(context.Background(), 5*time.Second)
+		defer cancel()
+		var opts []func(hrpc.Call) error
+		if rev {
+			opts = append(opts, hrpc.Reversed())
+		}
+		var s *hrpc.Scan
+		if rev {
+			// (a reversed scan starts at its start row and walks down)
+			s, _ = hrpc.NewScanRange(ctx, []byte("t"), []byte{0xff, 0xff, 0xff, 0xff}, nil, opts...)
+		} else {
+			s, _ = hrpc.NewScan(ctx, []byte("t"), opts...)
+		}
+		scn := sc.cl.Scan(s)
+		defer scn.Close()
+		rows := 0
+		for {
+			_, err := scn.Next()
+			if err == io.EOF {
+				return fmt.Sprint(rows)
+			}
+			if err != nil {
+				return "err"
+			}
+			if rows++; rows > 100 {
+				return "endless"
+			}
+		}
+	}
+	steps := 3 + rng.Intn(5)
+	for i := 0; i < steps; i++ {
+		switch rng.Intn(4) {
+		case 0:
+			ops += "F" + scanAll(false)
+		case 1, 2:
+			ops += "R" + scanAll(true)
+		default:
+			ctx, cancel := context.WithTimeout(context.Background(), 5*time.Second)
+			k := []byte{byte('a' + rng.Intn(20)), byte(rng.Intn(256))}
+			g, _ := hrpc.NewGet(ctx, []byte("t"), k)
+			_, err := sc.cl.Get(g)
+			cancel()
+			ops += "G" + classOf(err)
+		}
+	}
+	var cached []string
+	for _, r := range sc.v.CachedRegions() {
+		cached = append(cached, hx(r.Name())+":"+hx(r.StartKey())+":"+hx(r.StopKey()))
+	}
+	var defs []string
+	for k, v := range defined {
+		defs = append(defs, k+":"+v)
+	}
+	sort.Strings(defs)
+	return fmt.Sprintf("c08 e2e regions=%d ops=%s cached=%s defined=%s", n, ops, joinOrDash(cached, ","), strings.Join(defs, ","))
 }
